@@ -40,6 +40,7 @@ type hstate struct {
 	rel      cl.ReleaseFunc
 	counted  bool
 	released bool // some release call has been started on it
+	cancel   context.CancelFunc
 }
 
 type world struct {
@@ -134,12 +135,17 @@ func (wk *worker) exec(st Step) string {
 		if wk.h != nil || wk.depth > 0 {
 			return "skip"
 		}
-		ctx, rel := cl.Acquire(wk.base)
+		// every holder gets a context of its own that a later step may cancel (while it runs, or
+		// while it is inside a temporary release): cancellation after Acquire returned must not
+		// change who holds a token
+		hc, hcancel := context.WithCancel(wk.base)
+		ctx, rel := cl.Acquire(hc)
 		if wk.base.Err() != nil {
+			hcancel()
 			return "acq-cancelled"
 		}
 		w.mu.Lock()
-		h := &hstate{id: len(w.holders), rel: rel}
+		h := &hstate{id: len(w.holders), rel: rel, cancel: hcancel}
 		w.holders = append(w.holders, h)
 		w.mu.Unlock()
 		wk.h, wk.hctx = h, ctx
@@ -173,6 +179,16 @@ func (wk *worker) exec(st Step) string {
 		w.uncount(h, true, true)
 		h.rel()
 		return "relOther"
+	case "cancelHolder":
+		w.mu.Lock()
+		if len(w.holders) == 0 {
+			w.mu.Unlock()
+			return "skip"
+		}
+		h := w.holders[st.Arg%len(w.holders)]
+		w.mu.Unlock()
+		h.cancel()
+		return "cancelHolder"
 	case "tbegin":
 		if wk.h == nil {
 			return "skip"
@@ -425,7 +441,7 @@ func runCase(c Case) (nontrivial bool, trace []string, err error) {
 	return nt, trace, nil
 }
 
-var ops = []string{"acq", "acq", "acq", "rel", "rel", "relAgain", "tbegin", "tbegin", "tend", "tend", "relOther", "relOther", "tempNoHolder", "acqCancelled", "acqNoLimiter"}
+var ops = []string{"acq", "acq", "acq", "rel", "rel", "relAgain", "tbegin", "tbegin", "tend", "tend", "relOther", "relOther", "tempNoHolder", "acqCancelled", "acqNoLimiter", "cancelHolder", "cancelHolder"}
 
 func genCase(t *rapid.T) Case {
 	c := Case{N: rapid.IntRange(1, 4).Draw(t, "n"), G: rapid.IntRange(2, 7).Draw(t, "g")}
